@@ -97,6 +97,17 @@ TileReduceCases ==
          LET X == SoftX("f32", sh, 1, 2) attrs == <<AI("axis", 1)>> IN
          TileEmit(op, attrs, X, SemSoftmax(op, X, attrs), LAMBDA ins : SemSoftmax(op, ins[1], attrs), KnownSoftmax(op, X, attrs))
 
+\* ties between +0 and -0 under several reduced axes: either zero is a maximum / minimum (compared numerically), but the SAME bits
+\* every time - the case is executed 24 times (`repeat`)
+ZeroTieCases ==
+   \A dt \in {"f32", "f64"} :
+      LET Xmax == T(dt, <<2, 2>>, <<Fin(-1), Fin(0), NZ, Fin(-1)>>) Xmin == T(dt, <<2, 2>>, <<Fin(1), NZ, Fin(0), Fin(1)>>)
+          X3 == T(dt, <<2, 2, 2>>, <<Fin(-1), NZ, Fin(-2), Fin(0), Fin(0), Fin(-1), NZ, Fin(-3)>>) IN
+      \A attrs \in {<<>>, <<AIs("axes", <<0, 1>>)>>, <<AIs("axes", <<1, 0>>)>>, <<AIs("axes", <<0, 1>>), AI("keepdims", 0)>>} :
+         /\ P(CaseRec("zero_ties", "ReduceMax", attrs, <<Xmax>>, MustValue(<<T(dt, IF AttrV(attrs, "keepdims", 1) = 0 THEN <<>> ELSE <<1, 1>>, <<Fin(0)>>)>>), <<"value", dt, "zero_ties">>) @@ [repeat |-> 24])
+         /\ P(CaseRec("zero_ties", "ReduceMin", attrs, <<Xmin>>, MustValue(<<T(dt, IF AttrV(attrs, "keepdims", 1) = 0 THEN <<>> ELSE <<1, 1>>, <<Fin(0)>>)>>), <<"value", dt, "zero_ties">>) @@ [repeat |-> 24])
+         /\ (attrs = <<>> => P(CaseRec("zero_ties", "ReduceMax", <<AIs("axes", <<0, 1, 2>>), AI("keepdims", 0)>>, <<X3>>, MustValue(<<T(dt, <<>>, <<Fin(0)>>)>>), <<"value", dt, "zero_ties">>) @@ [repeat |-> 24]))
+
 \* an axis at the edge of the 64-bit range is out of range for every tensor
 ExtremeAxisCases(shape) ==
    \A k \in 1..Len(ExtremeI64) : LET e == ExtremeI64[k] X == Dist("f32", shape) IN
@@ -126,7 +137,7 @@ Init ==
 Emit ==
    /\ ~st.done
    /\ CASE st.fam = "long" -> LongCases(st.shape) /\ (st.shape[1] = 2 => TileReduceCases)
-        [] st.fam = "argmax" -> ArgMaxCases(st.shape) /\ (Len(st.shape) = 2 => ArgMaxDt(st.shape)) /\ (Len(st.shape) <= 2 /\ st.shape[1] = 2 => ExtremeAxisCases(st.shape)) /\ (Len(st.shape) \in {2, 3} /\ st.shape[1] = 3 => OrderCases(st.shape))
+        [] st.fam = "argmax" -> ArgMaxCases(st.shape) /\ (Len(st.shape) = 2 => ArgMaxDt(st.shape)) /\ (Len(st.shape) <= 2 /\ st.shape[1] = 2 => ExtremeAxisCases(st.shape)) /\ (Len(st.shape) \in {2, 3} /\ st.shape[1] = 3 => OrderCases(st.shape)) /\ (st.shape = <<2>> => ZeroTieCases)
         [] st.fam = "reduce" -> ReduceCases(st.op, st.shape) /\ (Len(st.shape) = 2 => ReduceDt(st.op, st.shape))
         [] st.fam = "softmax" -> SoftCases(st.op, st.shape) /\ (st.op = "Softmax" => HugeCases(st.shape))
    /\ st' = [st EXCEPT !.done = TRUE]
